@@ -79,6 +79,17 @@ func c07List(tier string) []c07Case {
 			}
 		}
 	}
+	// the same cancellations relayed by a proxy (first scenarios, a few positions)
+	for si, sc := range c07Scenarios(tier) {
+		if si >= 5 || sc.Others > 0 {
+			continue
+		}
+		for _, how := range []string{"cancel", "deadline"} {
+			for _, p := range []int{1, sc.Lmax / 2, sc.Lmax} {
+				out = append(out, c07Case{sc, how, p, []int{1, 4, 16}[(si+p)%3], "proxy"})
+			}
+		}
+	}
 	// over the shipped websocket transport: the cancel lands while a send of the stream is half-way
 	// onto the socket
 	for k := 0; k < tierN(tier, 4, 24); k++ {
@@ -145,7 +156,12 @@ func c07Run(tier string, seed int64, idx int) *core.Result {
 		h.Jitter = uint64(seed)*7 + uint64(idx) + 3
 	}
 	h.Install()
-	b := bed.New(bed.Opts{Cap: idx % 2 * 2, Serialise: idx%3 == 0})
+	topo := ""
+	if c.Plan == "proxy" {
+		topo = "proxy" // client - proxy - Demux keyed by source - Serve: the reset has to find its way
+		res.Stat("cancellations_through_proxy", 1)
+	}
+	b := bed.New(bed.Opts{Cap: idx % 2 * 2, Serialise: idx%3 == 0, Topology: topo})
 	cc := b.Conns[0]
 	gates := NewGates()
 	tag := fmt.Sprintf("c7-%d", idx)
@@ -367,7 +383,7 @@ func init() {
 		Run:            c07Run,
 		Exhaustive:     func(string) bool { return true },
 		RequiredStats: func(string) []string {
-			return []string{"cancellations_checked", "resets_observed", "handler_contexts_checked", "stream_completed_or_failed_at_open", "ws_cancel_mid_write_cases", "http_cancel_during_send_cases"}
+			return []string{"cancellations_checked", "resets_observed", "handler_contexts_checked", "stream_completed_or_failed_at_open", "ws_cancel_mid_write_cases", "http_cancel_during_send_cases", "cancellations_through_proxy"}
 		},
 		Assumptions: []string{"HTTP family: no final-state argument over net/http; 20 s on loopback without the reset arriving is taken as never", "exhaustive = every cancel position of every scenario's wire trace; schedules between positions are sampled"},
 	})
